@@ -57,17 +57,18 @@ type Case struct {
 }
 
 type Outcome struct {
-	ID       int      `json:"id"`
-	Status   string   `json:"status"` // ok | panic | timeout | died
-	Flagged  []string `json:"flagged,omitempty"`
-	Panic    string   `json:"panic,omitempty"`
-	NErrors  int      `json:"n_errors"`
-	NWarn    int      `json:"n_warnings"`
-	OutLen   int      `json:"out_len"`
-	Out      []byte   `json:"out,omitempty"`
-	FirstErr string   `json:"first_error,omitempty"`
-	Millis   int64    `json:"ms"`
-	Stderr   string   `json:"stderr,omitempty"`
+	ID        int      `json:"id"`
+	Status    string   `json:"status"` // ok | panic | timeout | died
+	Flagged   []string `json:"flagged,omitempty"`
+	Panic     string   `json:"panic,omitempty"`
+	NErrors   int      `json:"n_errors"`
+	NWarn     int      `json:"n_warnings"`
+	OutLen    int      `json:"out_len"`
+	Out       []byte   `json:"out,omitempty"`
+	FirstErr  string   `json:"first_error,omitempty"`
+	Millis    int64    `json:"ms"`
+	CPUMillis int64    `json:"cpu_ms,omitempty"`
+	Stderr    string   `json:"stderr,omitempty"`
 }
 
 type worker struct {
@@ -139,8 +140,36 @@ func (w *worker) kill() {
 	w.cmd.Wait()
 }
 
-// runOne sends one case and waits for its outcome for at most limit.
-func (w *worker) runOne(c *Case, limit time.Duration) (Outcome, bool) {
+// procCPU: user+system CPU time consumed so far by process pid (Linux /proc, clock ticks of 10 ms).
+func procCPU(pid int) (time.Duration, bool) {
+	data, err := os.ReadFile(fmt.Sprintf("/proc/%d/stat", pid))
+	if err != nil {
+		return 0, false
+	}
+	s := string(data)
+	k := strings.LastIndexByte(s, ')') // the command name may contain spaces
+	if k < 0 {
+		return 0, false
+	}
+	f := strings.Fields(s[k+1:])
+	if len(f) < 13 {
+		return 0, false
+	}
+	var ut, stt int64
+	fmt.Sscan(f[11], &ut)
+	fmt.Sscan(f[12], &stt)
+	return time.Duration(ut+stt) * 10 * time.Millisecond, true
+}
+
+// runOne sends one case and waits for its outcome.  The hang oracle is the
+// CHILD'S CPU TIME, not the wall clock (on a loaded machine a 20 ms build can
+// take many seconds of wall time):
+//   - "timeout" (busy): the child consumed at least `limit` of CPU on this case;
+//   - "blocked": no result after 8 x limit of wall time while the child consumed
+//     less than a second of CPU (a deadlock, not load: a runnable process gets CPU);
+//   - "starved": no result after maxWall although the child neither burned `limit`
+//     of CPU nor was idle - inconclusive, never reported as a failure.
+func (w *worker) runOne(c *Case, limit time.Duration, maxWall time.Duration) (Outcome, bool) {
 	data, _ := json.Marshal(c)
 	data = append(data, '\n')
 	type rd struct {
@@ -149,6 +178,7 @@ func (w *worker) runOne(c *Case, limit time.Duration) (Outcome, bool) {
 	}
 	ch := make(chan rd, 1)
 	t0 := time.Now()
+	cpu0, haveCPU := procCPU(w.cmd.Process.Pid)
 	if _, err := w.in.Write(data); err != nil {
 		return Outcome{ID: c.ID, Status: "died", Stderr: w.stderr.String()}, false
 	}
@@ -156,26 +186,43 @@ func (w *worker) runOne(c *Case, limit time.Duration) (Outcome, bool) {
 		line, err := w.out.ReadBytes('\n')
 		ch <- rd{line, err}
 	}()
-	select {
-	case r := <-ch:
-		if r.err != nil {
-			time.Sleep(50 * time.Millisecond)
-			return Outcome{ID: c.ID, Status: "died", Stderr: w.stderr.String(), Millis: time.Since(t0).Milliseconds()}, false
+	tick := time.NewTicker(100 * time.Millisecond)
+	defer tick.Stop()
+	for {
+		select {
+		case r := <-ch:
+			if r.err != nil {
+				time.Sleep(50 * time.Millisecond)
+				return Outcome{ID: c.ID, Status: "died", Stderr: w.stderr.String(), Millis: time.Since(t0).Milliseconds()}, false
+			}
+			var o Outcome
+			if err := json.Unmarshal(r.line, &o); err != nil {
+				return Outcome{ID: c.ID, Status: "died", Stderr: "bad worker line: " + string(r.line) + w.stderr.String()}, false
+			}
+			return o, true
+		case <-tick.C:
+			wall := time.Since(t0)
+			used := wall // without /proc fall back to the wall clock
+			if haveCPU {
+				if cpu, ok := procCPU(w.cmd.Process.Pid); ok {
+					used = cpu - cpu0
+				}
+			}
+			switch {
+			case used >= limit:
+				return Outcome{ID: c.ID, Status: "timeout", Millis: wall.Milliseconds(), CPUMillis: used.Milliseconds()}, false
+			case wall >= 8*limit && used < time.Second:
+				return Outcome{ID: c.ID, Status: "blocked", Millis: wall.Milliseconds(), CPUMillis: used.Milliseconds()}, false
+			case wall >= maxWall:
+				return Outcome{ID: c.ID, Status: "starved", Millis: wall.Milliseconds(), CPUMillis: used.Milliseconds()}, false
+			}
 		}
-		var o Outcome
-		if err := json.Unmarshal(r.line, &o); err != nil {
-			return Outcome{ID: c.ID, Status: "died", Stderr: "bad worker line: " + string(r.line) + w.stderr.String()}, false
-		}
-		return o, true
-	case <-time.After(limit):
-		return Outcome{ID: c.ID, Status: "timeout", Millis: time.Since(t0).Milliseconds()}, false
 	}
 }
 
-// RunPool executes all cases on nWorkers child processes. A case that times
-// out or kills its worker is re-run once, alone on a fresh worker with three times
-// the limit, before its outcome is final (machine load must not be reported
-// as a hang).
+// RunPool executes all cases on nWorkers child processes. A case that exceeds
+// the CPU limit, blocks, starves or kills its worker is re-run once, alone on a
+// fresh worker, before its outcome is final; EVERY such case is re-run.
 func RunPool(cases []*Case, nWorkers int, limit time.Duration) []Outcome {
 	outs := make([]Outcome, len(cases))
 	var next int
@@ -211,7 +258,7 @@ func RunPool(cases []*Case, nWorkers int, limit time.Duration) []Outcome {
 						continue
 					}
 				}
-				o, alive := w.runOne(cases[i], limit)
+				o, alive := w.runOne(cases[i], limit, 12*limit)
 				outs[i] = o
 				if !alive {
 					w.kill()
@@ -224,18 +271,17 @@ func RunPool(cases []*Case, nWorkers int, limit time.Duration) []Outcome {
 		}()
 	}
 	wg.Wait()
-	for k, i := range retry {
-		if k >= 3 {
-			break
-		}
+	for _, i := range retry {
 		w, err := startWorker()
 		if err != nil {
+			outs[i] = Outcome{ID: cases[i].ID, Status: "starved", Stderr: "retry worker did not start: " + err.Error()}
 			continue
 		}
-		o, _ := w.runOne(cases[i], 3*limit)
+		first := outs[i].Status
+		o, _ := w.runOne(cases[i], limit, 30*limit)
 		w.kill()
 		if o.Status == "ok" && len(o.Flagged) == 0 {
-			o.Stderr = "first attempt: " + outs[i].Status
+			o.Stderr = "first attempt: " + first
 		}
 		outs[i] = o
 	}
